@@ -22,7 +22,7 @@ impl FileWriter {
         filename: &str,
         content: &str,
     ) -> Result<(), Box<dyn std::error::Error>> {
-        let file_path = format!("{}/{}", self.output_path, filename);
+        let file_path = self.path_of(filename);
         fs::write(&file_path, content)?;
         self.generated_files.push(filename.to_string());
         Ok(())
@@ -71,14 +71,13 @@ impl FileWriter {
 
     /// Check if a file exists in the output directory
     pub fn file_exists(&self, filename: &str) -> bool {
-        let file_path = format!("{}/{}", self.output_path, filename);
-        Path::new(&file_path).exists()
+        self.path_of(filename).exists()
     }
 
     /// Delete a file if it exists (useful for cleanup)
     pub fn delete_file(&self, filename: &str) -> Result<(), Box<dyn std::error::Error>> {
-        let file_path = format!("{}/{}", self.output_path, filename);
-        if Path::new(&file_path).exists() {
+        let file_path = self.path_of(filename);
+        if file_path.exists() {
             fs::remove_file(&file_path)?;
         }
         Ok(())
@@ -86,7 +85,13 @@ impl FileWriter {
 
     /// Get the full path to a file in the output directory
     pub fn get_file_path(&self, filename: &str) -> String {
-        format!("{}/{}", self.output_path, filename)
+        self.path_of(filename).to_string_lossy().to_string()
+    }
+
+    /// `filename` inside the output directory. Joined as a path: with an empty output
+    /// directory (the current directory) this is `filename`, not `/filename`
+    fn path_of(&self, filename: &str) -> std::path::PathBuf {
+        Path::new(&self.output_path).join(filename)
     }
 }
 
